@@ -54,7 +54,9 @@ SPEC = {
                                   opt={"loss_coefficient": F(0.0, 2.0), "name": F("hx", None), "in_service": F(True, False), "type": F("heat_exchanger")}),
     "create_pipe": dict(table="pipe", req={"from_junction": J, "to_junction": J, "std_type": "PIPE_STD", "length_km": F(0.1, 2.5)},
                         opt={"loss_coefficient": F(0.0, 1.5), "sections": F(1, 3), "text_k": F(280.0, 300.0), "name": F("p", None),
-                             "in_service": F(True, False), "type": F("pipe")}),
+                             "in_service": F(True, False), "type": F("pipe")},
+                        # individually given values replace the type's values for THIS pipe only (accepted with a DeprecationWarning)
+                        override={"k_mm": F(0.9, 0.05), "u_w_per_m2k": F(7.0, 1.0)}),
     "create_pipe_from_parameters": dict(table="pipe", req={"from_junction": J, "to_junction": J, "length_km": F(0.1, 2.5),
                                                            "inner_diameter_mm": F(40.0, 100.0)},
                                         opt={"outer_diameter_mm": F(110.0, 120.0), "k_mm": F(0.2, 0.05), "loss_coefficient": F(0.0, 1.5),
@@ -123,6 +125,9 @@ def call_strategy(draw, fn_names):
         pa, pb = draw(st.sampled_from(sp["pairs"]))
         kw[pa] = draw(st.sampled_from(sp["pair_vals"][pa]))
         kw[pb] = draw(st.sampled_from(sp["pair_vals"][pb]))
+    for a, pool in sp.get("override", {}).items():
+        if draw(st.integers(0, 2)) == 0:
+            kw[a] = draw(st.sampled_from(pool))
     if draw(st.integers(0, 3)) == 0:
         kw["index"] = ("NEW", draw(st.integers(0, 40)))
     if draw(st.integers(0, 5)) == 0:
@@ -313,9 +318,10 @@ def check_row(net, fn, tbl, idx, kw, findings, ctx):
     if fn == "create_pipe":
         std = net.std_types["pipe"][kw["std_type"]]
         exp["inner_diameter_mm"] = std["inner_diameter_mm"]
-        exp["k_mm"] = std.get("k_mm", 0.2)
+        exp["k_mm"] = kw.get("k_mm", std.get("k_mm", 0.2))
         exp.pop("outer_diameter_mm", None)
-        exp.pop("u_w_per_m2k", None)
+        if "u_w_per_m2k" not in kw:
+            exp.pop("u_w_per_m2k", None)
     for c, v in exp.items():
         if c not in row.index:
             findings.append(Finding("row", "C16.row.missing_column.%s.%s" % (fn, c), dict(ctx, column=c)))
@@ -388,6 +394,19 @@ def new_net(case):
     return net
 
 
+def std_types_changed(before, after):
+    """types known before the call must be unchanged afterwards (values included)."""
+    b, a = before.get("std_types"), after.get("std_types")
+    if b is None or a is None:
+        return None
+    for key, val in b[1].items():
+        if key not in a[1]:
+            return "standard type %s/%s disappeared" % key
+        if a[1][key] != val:
+            return "standard type %s/%s changed: %s -> %s" % (key[0], key[1], val, a[1][key])
+    return None
+
+
 def tables_changed(before, after):
     """diff of two snapshots that tolerates newly registered EMPTY tables (reported separately)."""
     b2 = dict(before)
@@ -448,7 +467,7 @@ def run_single(net, op, findings, step, history):
     after = snapshot(net)
     b2 = {k: v for k, v in before.items() if k not in (tbl, tbl + "_geodata", "component_list", "std_types")}
     a2 = {k: v for k, v in after.items() if k in b2}
-    d = diff_snapshot(b2, a2)
+    d = diff_snapshot(b2, a2) or std_types_changed(before, after)
     if d:
         findings.append(Finding("row", "C16.other_tables_changed." + fn, dict(ctx, change=d)))
     if tbl in before:
@@ -570,6 +589,9 @@ def run_bulk(net, op, findings, step, history, case):
         history.append("accepted_invalid")
         return
     history.append("bulk_accepted")
+    d = std_types_changed(before, snapshot(net))
+    if d:
+        findings.append(Finding("row", "C16.other_tables_changed." + bfn, dict(ctx, change=d)))
     if len(net[tbl]) != n_before + len(rows):
         findings.append(Finding("row", "C16.row.count." + bfn, dict(ctx, before=n_before, after=len(net[tbl]))))
         return
